@@ -52,8 +52,64 @@ class Runner:
             if rr.returncode != 0: print(f"BUILD-FAILED flavour={fl}"); sys.exit(2)
             self.env[var] = rr.stdout.strip().splitlines()[-1]
 
+    # ---- coverage-guided phase (thorough tier of the in-process properties): libFuzzer over the same decoder and check functions
+    def fuzz_phase(self):
+        fz = self.cfg.get("fuzz")
+        if not fz or self.tier != "thorough": return []
+        r = subprocess.run([sys.executable, os.path.join(VERIF, "build.py"), "fuzz", "vfuzz"], stdout=subprocess.PIPE, text=True)
+        if r.returncode != 0: print("BUILD-FAILED flavour=fuzz"); sys.exit(2)
+        fbin = r.stdout.strip().splitlines()[-1]
+        workers = fz.get("workers", 8); secs = int(os.environ.get("VERIF_FUZZ_SECONDS", fz.get("seconds", 240))); budget = self.cfg[self.tier].get("case_budget", 10)
+        wit = {e.get("witness") for e in self.known()}
+        seeds = [f for f in sorted(glob.glob(os.path.join(VERIF, "replays", self.pid, "*.case"))) if os.path.relpath(f, VERIF) not in wit]
+        kn = [e["id"] for e in self.known() if e["status"] == "known"]
+        t_end = time.time() + secs
+        def launch(i, attempt):
+            wd = os.path.join(self.work, f"f{i}")
+            if attempt == 0:
+                os.makedirs(f"{wd}/corpus"); os.makedirs(f"{wd}/art")
+                if i % 2 == 0:   # half of the workers start from the committed replays, half from an empty corpus
+                    for f in seeds: shutil.copy(f, f"{wd}/corpus/")
+            env = dict(self.env); env.update({"VF_PROP": self.pid, "VF_OUT": f"{wd}/stats{attempt}.json", "VF_FAILOUT": f"{wd}/fail.case", "VF_TIER": "1", "VF_WORKDIR": wd, "VF_KNOWN": ",".join(kn)})
+            env["ASAN_OPTIONS"] = "detect_leaks=1:allocator_may_return_null=1:malloc_context_size=12"; env["UBSAN_OPTIONS"] = "print_stacktrace=1:halt_on_error=1"
+            left = max(5, int(t_end - time.time()))
+            a = [fbin, f"{wd}/corpus", f"-max_total_time={left}", f"-max_len={fz.get('max_len', 600)}", f"-seed={self.seed * 1000 + i + 1 + 100 * attempt}", f"-timeout={budget}", "-rss_limit_mb=6000",
+                 f"-artifact_prefix={wd}/art/", "-print_final_stats=1", "-verbosity=0"]
+            return [i, wd, subprocess.Popen(a, env=env, stdout=open(f"{wd}/log{attempt}", "w"), stderr=subprocess.STDOUT, preexec_fn=os.setsid), attempt]
+        procs = [launch(i, 0) for i in range(workers)]
+        stats = []; qi = 0; n_load = 0
+        while qi < len(procs):
+            i, wd, p, attempt = procs[qi]; qi += 1
+            try: rc = p.wait(timeout=max(1, t_end - time.time()) + 3 * budget + 120)
+            except subprocess.TimeoutExpired: os.killpg(p.pid, signal.SIGKILL); p.wait(); rc = None; self.notes.append(f"fuzz worker {i} stopped by the supervisor (no exit after its time budget)")
+            if os.path.exists(f"{wd}/stats{attempt}.json"):
+                try: stats.append(json.load(open(f"{wd}/stats{attempt}.json")))
+                except Exception as ex: self.notes.append(f"fuzz worker {i}: unreadable stats ({ex})")
+            if rc in (0, None): continue
+            cands = [f"{wd}/fail.case"] if os.path.exists(f"{wd}/fail.case") else sorted(glob.glob(f"{wd}/art/crash-*") + glob.glob(f"{wd}/art/leak-*"))
+            slow = glob.glob(f"{wd}/art/timeout-*")
+            if not cands and slow and self.cfg.get("hang_is_violation"): cands = slow[:1]
+            if not cands:
+                # slow unit / timeout / out-of-memory artifacts are load noise: drop them and let the worker continue on its corpus for the remaining time
+                n_load += 1
+                for x in glob.glob(f"{wd}/art/*"): os.unlink(x)
+                if t_end - time.time() > 20 and attempt < 20: procs.append(launch(i, attempt + 1))
+                continue
+            data = open(cands[0], "rb").read(); tmp = f"{wd}/cand.case"; open(tmp, "wb").write(data)
+            k, s_, out = self.replay(tmp, budget=budget)
+            if k == "pass":
+                self.notes.append(f"fuzz worker {i}: artifact passes under the replay driver (tail: {open(f'{wd}/log{attempt}', errors='replace').read()[-300:]!r})")
+                for x in glob.glob(f"{wd}/art/*") + glob.glob(f"{wd}/fail.case"): os.unlink(x)
+                continue
+            self.n_min = getattr(self, "n_min", 0) + 1
+            small = self.minimise(data, k, 300) if (self.n_min <= 2 and len(self.violations) < 3) else data
+            self.confirm_and_record(small, k, s_, f"libfuzzer{i}:{k}")
+        if n_load: self.notes.append(f"libFuzzer workers were restarted {n_load} times after timeout/slow-unit/oom artifacts (load noise, inconclusive for those inputs)")
+        self.fuzz_execs = sum(s_["evaluations"] for s_ in stats)
+        return stats
+
     def known(self):
-        path = os.path.join(VERIF, "known_findings.json")
+        path = os.environ.get("VERIF_KNOWN_FINDINGS", os.path.join(VERIF, "known_findings.json"))   # (override: developer aid for trying repairs in a scratch tree)
         ents = json.load(open(path))["findings"] if os.path.exists(path) else []
         return [e for e in ents if e["property"] == self.pid]
 
@@ -143,7 +199,7 @@ class Runner:
                     if fails(cand): data = cand; break
         return bytes(data)
 
-    def confirm_and_record(self, data, kind, sig, origin):
+    def confirm_and_record(self, data, kind, sig, origin, detail=""):
         """three replays; all must fail the same way"""
         if len(self.violations) >= 3:   # enough witnesses: do not spend the budget confirming more of (most likely) the same defect
             self.notes.append(f"further failing candidate from {origin} ({kind}) not examined: three violations already confirmed"); return
@@ -163,7 +219,7 @@ class Runner:
                 open(path + ".txt", "w").write(out)
                 self.violations.append((path, f"{kind} {s} origin={origin} (intermittent: failed again in {sum(r[0] == kind for r in res + extra)} of {len(res + extra)} replays)")); return
         if not all(r[0] == kind for r in res):
-            self.notes.append(f"FLAKY candidate {path} origin={origin} results={[r[0] for r in res]}"); return
+            self.notes.append(f"FLAKY candidate {path} origin={origin} results={[r[0] for r in res]} in-run failure: {detail[:400]}"); return
         if kind == "hang" and not self.cfg.get("hang_is_violation"):
             self.notes.append(f"INCONCLUSIVE (time budget) {path} origin={origin}"); return
         k, s, out = self.replay(path, text=True, budget=30)
@@ -252,7 +308,8 @@ class Runner:
                 continue
             if rc == 1 and os.path.exists(f"{wd}/fail.case"):
                 data = open(f"{wd}/fail.case", "rb").read()
-                self.confirm_and_record(data, "fail", "", f"shard{i}")
+                fl = [l for l in open(f"{wd}/log", errors="replace").read().splitlines() if l.startswith("FAIL oracle=")]
+                self.confirm_and_record(data, "fail", "", f"shard{i}", detail=fl[-1] if fl else "")
             else:
                 cur = f"{wd}/cur.case"
                 if not os.path.exists(cur): self.notes.append(f"shard {i} exited {rc} without a journal"); continue
@@ -275,9 +332,12 @@ class Runner:
             for k, v in s["counters"].items(): counters[k] = counters.get(k, 0) + v
             for k, v in s["excluded"].items(): excluded[k] = excluded.get(k, 0) + v
             samples += s["samples"][:2]
-        starved = []
+        starved = []   # distribution floors are stated for the random generator (rapidcheck shards); the coverage-guided corpus has its own distribution
+        rcs = [s for s in stats if s.get("engine") != "libfuzzer"]; rc_ev = sum(s["evaluations"] for s in rcs); rc_lab = {}
+        for s in rcs:
+            for k, v in s["labels"].items(): rc_lab[k] = rc_lab.get(k, 0) + v
         for lab, floor in self.cfg.get("floors", {}).items():
-            if ev and labels.get(lab, 0) / ev < floor: starved.append(f"{lab}: {labels.get(lab, 0)}/{ev} < {floor}")
+            if rc_ev and rc_lab.get(lab, 0) / rc_ev < floor: starved.append(f"{lab}: {rc_lab.get(lab, 0)}/{rc_ev} < {floor}")
         rule = stats[0]["rule"] if stats else self.cfg.get("rule", "")
         doc = {
             "property_id": self.pid, "tier": self.tier, "seed": self.seed, "level": self.cfg.get("level", "exploration"),
@@ -287,6 +347,7 @@ class Runner:
                 "oracle_evaluations": dict(sorted(counters.items())), "excluded_known_finding_classes": excluded,
                 "max_error_over_tolerance": mr, "generator_starved": starved, "notes": self.notes,
                 "known_findings_reported": self.known_lines,
+                "engines": {"rapidcheck_cases": ev - getattr(self, "fuzz_execs", 0), "libfuzzer_executions": getattr(self, "fuzz_execs", 0)},
             },
             "assumptions": self.cfg.get("assumptions", []),
             "wall_s": round(time.time() - self.t0, 1), "violations": len(self.violations),
@@ -302,6 +363,7 @@ class Runner:
         self.witnesses()
         custom = self.cfg.get("custom")
         stats = custom(self) if custom else self.generate()
+        stats += self.fuzz_phase()
         doc = self.evidence(stats, n_reg)
         c = doc["coverage"]
         print(f"[{self.pid} {self.tier}] cases={c['evaluations']} distinct_nontrivial={c['distinct_nontrivial']} discarded={c['discarded']} "
